@@ -183,6 +183,8 @@ def exhaustive_items():
     illegal += [f"{f}, tm" for f in ("me", "s", "cls", "state_tm")]
     illegal += ["tm, self", "initial_call, self, tm", "state_tm, self", "tm, self, state_tm"]     # self present, but not first
     illegal += ["*self", "**self", "*, self", "*self, tm", "self=None, *, tm"]                      # the first parameter itself is of an illegal kind
+    illegal += ["self, tm, state_tm, initial_call, x", "self, initial_call, tm, state_tm, *args", "self, state_tm, tm, initial_call, **kw",
+                "self, tm, state_tm, initial_call, *, k"]                                               # an illegal FIFTH parameter
     for dec in ("state", "timed_state", "default_state"):
         for p in illegal:
             if p == "":
@@ -253,7 +255,7 @@ def run_hier(acc, case, uid):
                 elif mb["kind"] == "default":
                     body[nm] = decs["default_state"](_fn(nm, "self", mb.get("doc")))
                 else:
-                    kw = {"first": True} if mb.get("first") else {}
+                    kw = {"first": (1 if len(nm) % 2 else True)} if mb.get("first") else {}      # first=1 is as good as first=True
                     body[nm] = decs["state" if mb["kind"] == "state" else "timed_state"](_fn(nm, "self, tm", mb.get("doc")), **kw)
             bases = tuple(built[b] for b in c["bases"]) or (SM,)
             built[c["name"]] = type(c["name"], bases, body)
